@@ -64,8 +64,7 @@ func (g *GoFakeS3) routeBase(w http.ResponseWriter, r *http.Request) {
 		err = g.listBuckets(w, r)
 
 	} else {
-		http.NotFound(w, r)
-		return
+		err = ErrMethodNotAllowed
 	}
 
 	if err != nil {
